@@ -193,6 +193,7 @@ def parseCfgItem (c : Cfg) (item : String) : Option Cfg :=
   | ["n", v] => do some { c with nNotifies := ← v.toNat? }
   | ["q", v] => do some { c with nChans := ← v.toNat? }
   | ["ckpt", _] => some c          -- checkpoint file name: used by the harness only
+  | ["unwind", _] => some c        -- what the harness drops while a panic unwinds: not modelled
   | _ => none
 
 def parseCfg (s : String) : Option Cfg :=
